@@ -51,6 +51,7 @@ type PollCtx struct {
 	cancelled atomic.Bool
 	cancelPoll atomic.Int64 // poll number at which cancellation became visible
 	open      chan struct{}
+	base      int64
 	OnCancel  func()
 }
 
@@ -87,6 +88,17 @@ func (c *PollCtx) Cancel() {
 	}
 }
 func (c *PollCtx) Polls() int64 { return c.polls.Load() }
+
+// Arm (re)starts the schedule: cancellation becomes visible at the k-th poll from now on.
+func (c *PollCtx) Arm(cancelAt, pollCap int64) {
+	c.base = c.polls.Load()
+	if cancelAt > 0 {
+		c.cancelAt = c.base + cancelAt
+	}
+	if pollCap > 0 {
+		c.pollCap = c.base + pollCap
+	}
+}
 
 // ---------------------------------------------------------------------------------------------
 // Recording host
